@@ -407,6 +407,12 @@ class Model(EconomicObject):
                 Logger('=' * 60 + '\n\n')
                 for s in c.SectorList:
                     Logger(s.Dump() + '\n')
+            if self.State == 'Construction':
+                # The codes generated for this dump are provisional (more countries may still be added): do not
+                # leave them behind, or GetVariableName() would hand out names that main() later changes.
+                for c in self.CountryList:
+                    for s in c.SectorList:
+                        s.FullCode = ''
         Logger('Writing LogInfo to log="eqn"')
         Logger('\n\nFinal Equations:\n', log='eqn')
         Logger(self.FinalEquations + '\n', log='eqn')
